@@ -421,7 +421,7 @@ Proof.
   unfold mb_new. set (nid := length h). set (h1 := h ++ [mkBlob [] (cap32 alloc_cap ns) 0]).
   assert (L1 : length h1 = S nid) by (unfold h1; rewrite app_length; cbn [length]; lia).
   assert (Hc32 : cap32 alloc_cap ns < two32) by (unfold cap32; apply N.mod_lt; unfold two32; lia).
-  assert (I1 : Inv h1 vs ex) by (exact (Inv_new h vs ex _ I Hc32)).
+  assert (I1 : Inv h1 vs ex) by (exact (Inv_new alloc_cap h vs ex _ I Hc32)).
   set (h2 := lock h1 nid).
   assert (I2 : Inv h2 vs (exadd ex nid)) by (apply Inv_lock; [assumption|lia]).
   assert (L2 : length h2 = S nid) by (unfold h2; rewrite length_lock; assumption).
@@ -753,7 +753,9 @@ Lemma rawSpace_spec h vs ex i s n : Inv h vs ex -> (i < length vs)%nat -> nth i 
   | Undef => False
   end.
 Proof.
-  intros I Hi Hs. unfold rawSpace. destruct (sub32 maxSize n <? slen s).
+  intros I Hi Hs. unfold rawSpace. destruct (maxSize <? n).
+  { subst s. apply keeps_refl. assumption. }
+  destruct (sub32 maxSize n <? slen s).
   { subst s. apply keeps_refl. assumption. }
   destruct (mb_canAppend _ _ _) eqn:Ec.
   { left. cbn [fst snd]. split; [subst s; apply keeps_refl; assumption|]. split; [reflexivity|]. split; [|reflexivity].
